@@ -17,12 +17,12 @@ CLAIMED = {
    design="6/C01"),
  "C02": dict(
    technique="runtime monitoring: trace-specification checker over recorded yield/resume/body event logs of instrumented generator pipelines (reference-free laws + list model) + differential reference-model monitor, four allocation stress modes",
-   text="Generator pipelines (leaf, map, filter, chain, take, nest, relay, zip) written in calc with every yield bracketed by trace writes are consumed by loops at top level, in functions, at recursion depth, after recycled contexts and with early returns; the event log must satisfy the suspension-stack, body-after-yield, resume-after-body, exactly-once and abandon laws and match a list model. The same pipelines untraced and generator-heavy typed sessions are compared with the reference semantics.",
+   text="Generator pipelines (leaf, map, filter, chain, take, nest, relay, zip) written in calc with every yield bracketed by trace writes are consumed by loops at top level, in functions, at recursion depth, after other (composed) loops of the same statement and with early returns; the event log must satisfy the suspension-stack, body-after-yield, resume-after-body, exactly-once and abandon laws and match a list model. The same pipelines untraced (also with directly nested consumers), generator-heavy typed sessions and a yield-operand family (global/captured/local/parameter/constant/expression operands with bodies that reassign them) are compared with the reference semantics.",
    note="Trace laws need no model of calc; the list model of constant-leaf pipelines and harness/rs are trusted for the value sequences.",
    design="6/C02"),
  "C03": dict(
    technique="runtime monitoring: metamorphic history monitor (one pure call evaluated in 13 dynamic contexts of one session, interleaved with noise, under plain/tight/pregrown allocation) + differential reference-model monitor",
-   text="Within one session a side-effect-free function (random typed, closure-around-deep-call, wide-frame with loop, zipped loops calling returned closures) is called with equal arguments as first statement, at recursion depth 1..1000, in while/for bodies, inside a generator, twice in one array literal, after a failed statement, after the stack grew by up to 4000 frames and after contexts were recycled; all renderings must equal the first and the reference.",
+   text="Within one session a side-effect-free function (random typed; closure around a deep call; closure around a 129..300-local call; wide frame with a loop over its last local; closure generator read after every resume; three-way zip; loops calling returned closures) is called with equal arguments as first statement, at recursion depths 1..4/10/130/1000 and two random depths in 100..420, in while/for bodies, inside a generator, twice in one array literal, after a failed statement, after the stack grew by up to 4000 frames, after contexts were recycled, after an early return out of a zipped loop in the same statement; all renderings must equal the first and the reference. A second family sweeps a function that reads a never-assigned local (must be nil) over 45 consecutive call depths after dirtying the slots below.",
    note="Purity of the generated function is by construction (no write/read); noise statements use disjoint global names.",
    design="6/C03"),
  "C04": dict(
@@ -32,7 +32,7 @@ CLAIMED = {
    design="6/C04"),
  "C05": dict(
    technique="runtime monitoring: universal no-abort monitor (panic/fatal/step-limit/undocumented-error oracle) over hostile parseable programs in child processes, both compile modes",
-   text="Grammar-random ill-typed programs, an enumerated hostile-value x operator/statement-position matrix, token mutations of corpus programs and fault-planted typed sessions run through the real parser, compiler and VM in REPL and script mode inside child workers; any panic, Go fatal (worker death), undocumented error class, or step-limit hit where the reference interpreter terminates is a violation.",
+   text="Grammar-random ill-typed programs, an enumerated hostile-value x operator/statement-position matrix, token mutations of corpus programs, fault-planted typed sessions, generator pipelines with lambdas in iterator expressions / recycled contexts / 130..300-local consumers, and hostile scripts through the real cmd/calc binary; in REPL and script compile mode inside child workers. Any panic, Go fatal (worker death), non-zero exit, undocumented error class, or step-limit hit where the reference interpreter terminates is a violation. Thorough tier replays under -race (checkptr) and -asan workers.",
    note="Ill-typed programs that loop forever have no reference verdict and are counted inconclusive/diverged; programs building values above 10^6 elements are dropped before the VM; exit() is never called.",
    design="6/C05"),
  "C09": dict(
@@ -57,7 +57,7 @@ CLAIMED = {
    design="6/C12"),
  "C15": dict(
    technique="runtime monitoring: exhaustive round-trip assertion over the operand-field space + OR-composition and function-layout sweeps (+ limit-crossing sessions)",
-   text="The real EncodeSrc/New/decoders are executed on every slot x kind x address in -70000..70000 (complete), every opcode with composed operands, and the function-value layout lattice; each accepted encode must decode to exactly its inputs with all other fields zero, the only alternative being a refusal.",
+   text="The real EncodeSrc/New/decoders are executed on every slot x kind x address in -70000..70000 (complete), every opcode with composed operands, and the function-value layout lattice; each accepted encode must decode to exactly its inputs with all other fields zero, the only alternative being a refusal. Sessions crossing 2^15 data-segment entries, function bodies of 3000..33000 statements (jump distance) and functions with 300..70000 parameters/arguments must print exactly what they compute or be refused with a reported compiler error that leaves both segments unchanged; a call with a wrapped-around argument count must end in refusal or an arity error.",
    note="A panic of EncodeSrc counts as refusal at API level. Session-level limit crossing is covered by the history family once the session runner applies.",
    design="6/C15"),
  "C14": dict(
@@ -67,7 +67,7 @@ CLAIMED = {
    design="6/C14"),
  "C06": dict(
    technique="runtime monitoring: invariant hooks (lexer/TLexer progress bounds), span and error-display assertions, state-unchanged assertion around processInput",
-   text="parser.Parse is run on prefixes of all corpus programs, random bytes, token soup, mutations, nesting to depth 5000 and 10^5-character literals under logical progress bounds; panics, bound trips, out-of-input spans, failing error displays and any execution of an erroneous input are violations.",
+   text="parser.Parse is run on prefixes of all corpus programs, random bytes, token soup, mutations, nesting to depth 5000 and 10^5-character literals under logical progress bounds; panics, bound trips, out-of-input spans, failing error displays and any execution of an erroneous input (through processInput in-process and through `calc -eval` on the real binary) are violations.",
    note="Termination is decided as bounded progress (>=100x slack over measured maxima, reported in the evidence); nesting deeper than 5000 is out of reach (Go stack).",
    design="6/C06"),
  "C13": dict(
@@ -82,7 +82,7 @@ CLAIMED = {
    design="6/C07"),
  "C18": dict(
    technique="runtime monitoring: model-conformance monitor over VM-legal memory operation histories in plain and tight-allocator (every growth moves the array) modes, unique written values",
-   text="VM-legal histories (calls with frame widths crossing 128/256, returns, local writes, frame-header aliases, globals, Clone with and without recycled targets on up to 9 interleaved memories, resets) run on the real memory.Type; after every op every observer of every live memory and alias is compared with a model where each activation is an independent record.",
+   text="VM-legal histories (calls with frame widths crossing 128/256, returns, local writes, frame-header aliases, globals, Clone with and without recycled targets on up to 9 interleaved memories, resets) run on the real memory.Type; after every op every observer of every live memory and alias is compared with a model where each activation is an independent record; plain and tight allocation. Language level: name-pressure sessions (incl. zipped loops over existing and new locals), wide-frame/closure functions called at recursion depths 0..300 with locals written around the call, and recursion 10^4..3x10^4 deep, against the reference under plain/tight/pregrown allocation.",
    note="Histories are limited to what the VM can issue. Tight mode relies on the verif hook trimming a freshly grown stack (append may move at any growth). Language-level reach of the same property comes from C03/C04 sessions.",
    design="6/C18"),
  "C16": dict(
@@ -97,7 +97,7 @@ CLAIMED = {
    design="6/C17"),
  "C19": dict(
    technique="runtime monitoring: trace-specification checker over the recorded error report (parsed) against the reference semantics' call/coroutine trace and the step hook's last dispatched instruction",
-   text="Failing statements of every error class at call depth up to 200, in loops, (nested) generators, pipeline stage functions, closures, function-valued parameters and built-ins are executed; the printed report is parsed and checked: header class, marked instruction equals the hook's last dispatched instruction and belongs to the failing operation's opcode family, listed operands are an ordered subset of the operands the operation saw, one context block per active coroutine with call-site names, argument counts and current argument values innermost first; never 'giving up', never a panic.",
+   text="Failing statements of every error class at call depth up to 200, in loops, (nested) generators, pipeline stage functions, closures, function-valued parameters and built-ins, each session ending in two more failing statements; the printed report is parsed and checked: header class, marked instruction equals the hook's last dispatched instruction and belongs to the failing operation's opcode family, every listed line shows the word that is at that address and its independent disassembly, listed operands are an ordered subset of the operands the operation saw, one context block per active coroutine with call-site names, argument counts and current argument values innermost first; never 'giving up', never a panic.",
    note="Operand-list completeness is not demanded; values are compared in the report's own 20-character abbreviation; a nil operand may be reported by the MOV that loads it.",
    design="6/C19"),
 }
